@@ -199,7 +199,9 @@ def norm_path(p):
 # ------------------------------------------------------------------------------------------
 
 STRS = ['', 'a', 'b', 'x y', 'kind-r', 'é', '\U0001F600', '\x00\x1f', 'line\nbreak', 'tab\t"q"\\',
-        ' ', 'n_:5', '__tuple__', '_type', '0', 'None', '\x7f', '�￿']
+        ' ', 'n_:5', '__tuple__', '_type', '0', 'None', '\x7f', 'NaN', 'Infinity', '-Infinity', 'nan', 'inf', '-inf', 'null', 'true', 'false',
+        '__tuple__ ', '_type_',      # spellings a text layer might take for something else
+        '�￿']
 KEYS = ['a', 'b', 'c', 'x', 'key', 'a.b', 'x y', '', 'é', '0', 'n_', '_typ', 'type', 'a[', '$',
         '\U0001F600', 'line\nbreak', 'q"\\']
 INT_KEYS = [0, 1, 5, -3, 42, 2 ** 65, -2 ** 63]
@@ -627,15 +629,17 @@ def gen_seq_case(rng):
   for _ in range(rng.randint(3, 10)):
     p = rng.below(2)
     k = rng.weighted([(4, 'add'), (4, 'read'), (3 if reads else 0, 'mutate'), (2, 'read2'), (2, 'add2')])
-    if p not in started:
-      k = 'add'
+    if p not in started and rng.chance(0.5):
+      k = 'add'       # otherwise the path's first-ever open may be a read, a second reader, or two appenders
     if k == 'add2':
+      started.add(p)
       # two appenders open at the same time, adding in turn
       ops.append({'k': 'add2', 'p': p, 'v1': [record() for _ in range(rng.randint(1, 2))],
                   'v2': [record() for _ in range(rng.randint(1, 2))]})
       continue
     if k == 'add':
-      m = 'w' if p not in started or rng.chance(0.2) else 'a'
+      # the first-ever open of a path is as often 'a' as 'w'
+      m = rng.choice(['w', 'a']) if p not in started else ('w' if rng.chance(0.2) else 'a')
       started.add(p)
       ops.append({'k': 'add', 'p': p, 'm': m, 'v': [record() for _ in range(rng.randint(1, 3))]})
     elif k == 'mutate':
@@ -2761,7 +2765,8 @@ class C05(Prop):
 
   def store_oracle(self, case, outs, label):
     f = self.store_oracle_(case, outs, label)
-    if f and case.get('rel') and label == 'std' and not f['signature'].startswith('store:bare-file-name'):
+    if (f and case.get('rel') and label == 'std' and not f['signature'].startswith('store:bare-file-name')
+        and f['signature'] not in ('store:record-with-newline', 'store:record-with-cr-on-std-fs')):     # F13d / F13e
       import re
       m = re.search(r'op (\d+)', f['what'])
       if m and norm_path(case['ops'][int(m.group(1))]['p']) == ('mem',):
